@@ -75,7 +75,9 @@ UNIT = {
             # the fix of finding F2): same contract, the invariant says the flag is always false.  On such code the
             # invariant cannot be re-established after a quoted hyphen, which is finding F2.
             'alt': [{
-                'needs': ['make_range ( & mut bracket . items )'],
+                # applies only when make_range is called unconditionally right after the match (a parser whose flag merely has
+                # another name must not fall into this set: it would be judged against the wrong invariant)
+                'needs': ['} make_range ( & mut bracket . items ) ;'],
                 'loops': {0: {
                     'ensures': ['ref_bracket(verif_entry_i.remaining(), rinit()) is None'],
                     'invariant_except_break': [
